@@ -17,6 +17,7 @@ d['findings'] = [f for f in d['findings'] if not (f['property'] == prop and f['k
 e = {"status": status, "property": prop, "key": key, "description": desc}
 if rel: e["replay"] = rel
 if commit: e["commit"] = commit
+e["line"] = (f"fixed: property={prop} {commit} {desc}" if status == "fixed" else f"KNOWN-FINDING: property={prop} {key} {desc[:300]}")
 d['findings'].append(e)
 json.dump(d, open(p, 'w'), indent=1)
 print("registered", prop, key, rel)
